@@ -27,6 +27,9 @@ ALPHABETS = {
     "latin": list("abc =é ü ß ÿ ñ") + ["\x85", "\xa0", "\x0c"],
     "cyr": list("ab= Жукяё"),
     "jp": list("ab= 日本語ｱあ"),
+    "jp2": list("ab= 日本語あ"),
+    "utf7": list("ab= é Ж 日 +-~{}"),
+    "zh": list("ab= 中文字~"),
     "utf8": list("ab= é Ж 日 ") + ["😀", " ", " ", "\x85", "́", "﻿", "\x0c", "\x1c", "ｱ", "\xa0"],
 }
 
@@ -38,6 +41,8 @@ CODECS = [
     ("cp1252", "latin", "cp1252"), ("cp1251", "cyr", "cp1251"), ("koi8-r", "cyr", "koi8-r"),
     ("shift_jis", "jp", "shift_jis"), ("euc_jp", "jp", "euc_jp"), ("cp932", "jp", "cp932"),
     ("ascii", "ascii", "ascii"), ("cp437", "ascii", "cp437"),
+    # 7-bit stateful codecs: the bytes are pure ASCII although the text is not
+    ("iso-2022-jp", "jp2", "iso2022_jp"), ("utf-7", "utf7", "utf-7"), ("hz", "zh", "hz"),
 ]
 
 COOKIE_FORMS = [
@@ -74,8 +79,29 @@ def gen_store_text(rng, codec, allow_empty=True):
                 continue
         except (UnicodeError, LookupError):
             continue
+        if not _bytes_declare(text, enc, cookie):
+            continue
         return text
     return ("# -*- coding: %s -*-\n" % cookie) if cookie else "x = 1\n"
+
+
+def _bytes_declare(text, enc, cookie):
+    """The *bytes* of the file must exhibit the coding line (a stateful 7-bit
+    codec may escape characters of the cookie line itself, e.g. a form feed in
+    UTF-7; then neither Python nor rope can see the declaration)."""
+    for nl in ("\n", "\r\n", "\r"):
+        try:
+            head = text.replace("\n", nl).encode(enc).decode("latin-1")
+        except (UnicodeError, LookupError):
+            return False
+        d = declared_encoding(head)
+        if (d or None) != (cookie or None):
+            # CR-only: a cookie on the second line is invisible by design; that is fine as long
+            # as the default (utf-8) then is the codec in use
+            if nl == "\r" and d is None and enc.lower().replace("_", "-") in ("utf-8", "utf8"):
+                continue
+            return False
+    return True
 
 
 def model_decode(data: bytes) -> str:
@@ -116,6 +142,8 @@ def edit_of(rng, text, codec):
         if new.encode(enc).decode(enc) != new:
             return fallback
     except (UnicodeError, LookupError):
+        return fallback
+    if not _bytes_declare(new, enc, cookie):
         return fallback
     return new if new != text else fallback
 
@@ -167,6 +195,7 @@ class ByteStoreEngine(Engine):
                 "edit": rng.choice([3, 6]), "file_write": rng.choice([1, 3]), "undo": rng.choice([1, 3]),
                 "redo": rng.choice([1, 2]), "reopen": rng.choice([0, 1, 2]), "flip": rng.choice([0, 1, 2]),
                 "fail": rng.choice([0, 1, 2]), "refactor": rng.choice([0, 2]), "create": rng.choice([0, 1]),
+                "unencodable": rng.choice([0, 1]),
             },
         }
         init = []
@@ -204,6 +233,9 @@ class ByteStoreEngine(Engine):
                 new = edit_of(rng, texts[p], tuple(codecs[p])) if rng.random() < 0.7 else gen_store_text(rng, tuple(codecs[p]))
                 steps.append({"op": "file_write", "path": p, "text": new, "held": held, "id": nid})
                 texts[p] = new
+            elif k == "unencodable":
+                # an edit that brings in a character the declared codec cannot hold
+                steps.append({"op": "unencodable", "path": p, "held": held, "extra": rng.choice(["日", "Ж", "€", "😀", "é"])})
             elif k in ("undo", "redo", "reopen"):
                 steps.append({"op": k})
             elif k == "flip":
@@ -248,6 +280,7 @@ class ByteStoreEngine(Engine):
         try:
             model = HistoryModel(TreeModel(W.snapshot()), 100)
             held = {}
+            lbfree_seen = set()  # paths whose contents had no line break at some point of this history
             carried = set()  # paths whose held File object has seen a write since it was created
             after_reopen = False
             prefix = []
@@ -260,6 +293,9 @@ class ByteStoreEngine(Engine):
                 out.stats["step_" + op] += 1
                 path = st.get("path")
                 cur = model.current()
+                for pth, v in cur.files.items():
+                    if isinstance(v, bytes) and b"\n" not in v and b"\r" not in v:
+                        lbfree_seen.add(pth)
                 sig = {"op": op}
                 prefix.append(op)
                 if path is not None and op != "create" and not cur.is_file(path):
@@ -317,6 +353,33 @@ class ByteStoreEngine(Engine):
                         if back != st["text"]:
                             bad = ("write_read_mismatch", {"path": path, "wrote": st["text"][:120], "read": back[:120]})
                         carried.add(path)
+                    elif op == "unencodable":
+                        enc = declared_encoding(data.decode("latin-1")) or "utf-8"
+                        text = model_decode(data)
+                        new_text = text + ("" if text.endswith("\n") or not text else "\n") + "v = '%s'\n" % st["extra"]
+                        try:
+                            new_text.encode(enc)
+                            out.stats["skipped"] += 1
+                            continue  # encodable after all: not this step's business
+                        except (UnicodeError, LookupError):
+                            pass
+                        f = fobj()
+                        raised = None
+                        try:
+                            f.write(new_text)
+                        except Exception as e:
+                            raised = e
+                        out.stats["probe_unencodable_edit"] += 1
+                        if raised is None:
+                            # accepted: then what was written must read back equal
+                            back = W.project.get_file(path).read()
+                            if back != new_text:
+                                bad = ("write_read_mismatch", {"path": path, "wrote": new_text[-60:], "read": back[-60:],
+                                                               "msg": "text not encodable in the declared codec was accepted and does not read back equal"})
+                            else:
+                                model = HistoryModel(TreeModel(W.snapshot()), 100)
+                                W.project.history.clear()
+                        # refused: the file must be untouched (whole-tree comparison below)
                     elif op == "create":
                         if cur.exists(st["path"]):
                             out.stats["skipped"] += 1
@@ -447,6 +510,7 @@ class ByteStoreEngine(Engine):
                     norm = lambda b: b.replace(b"\r\n", b"\n").replace(b"\r", b"\n") if isinstance(b, bytes) else b  # noqa: E731
                     sig["after_reopen"] = after_reopen
                     sig["newline_only"] = all(norm(snap.get(k)) == norm(want.get(k)) for k in differing)
+                    sig["passed_linebreak_free"] = all(k in lbfree_seen for k in differing)
                     sig["pre_linebreak_free"] = all(
                         isinstance(cur.files.get(k), bytes) and b"\n" not in cur.files[k] and b"\r" not in cur.files[k]
                         for k in differing
